@@ -72,11 +72,11 @@ package gzip
 //@   ensures result != nil
 //@ extern (*compress/gzip.Writer).Reset
 //@ func (*gzipResponseWriter).WriteHeader
-//@   requires w != nil
+//@   requires w != nil && w.ResponseWriterWrapper != nil && w.ResponseWriterWrapper.ResponseWriter != nil
 //@   modifies ghost:gzAnnounced, ghost:committed, gzipResponseWriter.statusCodeWritten
 //@   ensures gzAnnounced == 1 && committed == old(committed) + 1 && w.statusCodeWritten
 //@ func (*gzipResponseWriter).Write
-//@   requires w != nil
+//@   requires w != nil && w.ResponseWriterWrapper != nil && w.ResponseWriterWrapper.ResponseWriter != nil
 //@   modifies ghost:gzAnnounced, ghost:committed, ghost:gzBody, gzipResponseWriter.statusCodeWritten
 //@   ensures gzBody == old(gzBody) + 1 && w.statusCodeWritten && (old(w.statusCodeWritten) ==> (gzAnnounced == old(gzAnnounced) && committed == old(committed))) && (!old(w.statusCodeWritten) ==> (gzAnnounced == 1 && committed == old(committed) + 1))
 
@@ -96,7 +96,7 @@ package gzip
 //@   watch
 //@   modifies ghost:headerEdits
 //@   ensures headerEdits == old(headerEdits) + 1
-//@ define coherent(r *ResponseFilterWriter) bool = r.gzipResponseWriter != nil && r.gzipResponseWriter.ResponseWriterWrapper != nil && (r.statusCodeWritten ==> ((r.shouldCompress ==> (gzAnnounced == 1 && r.gzipResponseWriter.statusCodeWritten)) && (!r.shouldCompress ==> gzAnnounced == 0))) && (!r.statusCodeWritten ==> (gzAnnounced == 0 && !r.gzipResponseWriter.statusCodeWritten))
+//@ define coherent(r *ResponseFilterWriter) bool = r.gzipResponseWriter != nil && r.gzipResponseWriter.ResponseWriterWrapper != nil && r.gzipResponseWriter.ResponseWriterWrapper.ResponseWriter != nil && (r.statusCodeWritten ==> ((r.shouldCompress ==> (gzAnnounced == 1 && r.gzipResponseWriter.statusCodeWritten)) && (!r.shouldCompress ==> gzAnnounced == 0))) && (!r.statusCodeWritten ==> (gzAnnounced == 0 && !r.gzipResponseWriter.statusCodeWritten))
 
 //@ func (*ResponseFilterWriter).WriteHeader
 //@   requires r != nil && coherent(r) && !r.statusCodeWritten && forall(k, 0, len(r.filters), r.filters[k] != nil)
@@ -256,13 +256,13 @@ package gzip
 //@ ghost registered int
 //@ func gzipParse
 //@   requires c != nil
-//@   modifies ghost:parsedNow
+//@   modifies ghost:parsedNow, Dispenser.cursor, Dispenser.nesting
 //@   ensures parsedNow == old(parsedNow) + 1
 //@ extern (*github.com/tmpim/casket/caskethttp/httpserver.SiteConfig).AddMiddleware
 //@   modifies ghost:registered
 //@   ensures registered == old(registered) + 1
 //@ func setup
 //@   requires c != nil && parsedNow == 0 && registered == 0
-//@   modifies ghost:parsedNow, ghost:registered
+//@   modifies ghost:parsedNow, ghost:registered, Dispenser.cursor, Dispenser.nesting
 //@   at call (*github.com/tmpim/casket/caskethttp/httpserver.SiteConfig).AddMiddleware before [registered_after_this_runs_own_parse] parsedNow == 1
 //@   ensures [one_handler_on_success_none_on_error] parsedNow == 1 && (result == nil ==> registered == 1) && (result != nil ==> registered == 0)
